@@ -267,6 +267,9 @@ pub fn check_stdfs_twin_prog(prog: &[Op]) -> CaseResult {
                 _ => apply(&direct, &o),
             };
         }
+        // links the crate itself would never write: the stored target text is absolute (made by ln -s or another tool)
+        let _ = std::os::unix::fs::symlink(format!("{}/d/f", root), format!("{}/absl", root));
+        let _ = std::os::unix::fs::symlink(format!("{}/d", root), format!("{}/absd", root));
         let mut handles = Handles::default();
         let mut obs: Obs = vec![];
         let mut acc = None;
@@ -458,13 +461,13 @@ pub fn run(c: &Ctx) {
     // umask other than the usual 022 (a way that picks a mode of its own instead of leaving it to the backend and
     // the umask shows only then); restored after the Stdfs parts
     let old_umask = unsafe { libc::umask(0o027) };
-    let spaths = ["@/dang", "@/d/gw", "@/d/gx", "@", "@/d", "@/d/f", "@/d/sub", "@/d/sub/g", "@/exe", "@/lf", "@/ld", "@/nope", "@/d/new", "@/new/deep"];
+    let spaths = ["@/absl", "@/absd", "@/dang", "@/d/gw", "@/d/gx", "@", "@/d", "@/d/f", "@/d/sub", "@/d/sub/g", "@/exe", "@/lf", "@/ld", "@/nope", "@/d/new", "@/new/deep"];
     let mut twin: Vec<Op> = vec![];
     for p in spaths {
         twin.extend(single_path_ops(p, true).into_iter().filter(|o| !matches!(o, Op::SetCwd(_))));
     }
-    for a in spaths.iter().take(8) {
-        for b in spaths.iter().take(8) {
+    for a in spaths.iter().take(10) {
+        for b in spaths.iter().take(10) {
             twin.extend(two_path_ops(a, b, false));
         }
     }
@@ -476,6 +479,11 @@ pub fn run(c: &Ctx) {
         twin.push(late(Op::ChownB(p.into(), ChownOpt { uid: Some(5), gid: Some(7), recursive: true, follow: false })));
         twin.push(late(Op::CopyB(p.into(), "@/copied".into(), CopyOpt { mode: CopyMode::None, follow: false })));
         twin.push(late(Op::CopyB("@/exe".into(), if p.starts_with('@') { format!("{}-c", p) } else { p.to_string() }, CopyOpt { mode: CopyMode::All(0o640), follow: false })));
+    }
+    for p in ["@/nope", "@/d/f", "@/d/new"] {
+        twin.push(Op::MkfileM(p.into(), 0));
+        twin.push(Op::MkdirM(format!("{}-dir", p), 0));
+        twin.push(Op::MkfileM(p.into(), 0o7777));
     }
     par_for(twin.len() as u64, 8, |i| {
         let op = &twin[i as usize];
